@@ -108,4 +108,14 @@ CHECKS["C18"] = {"text": "Model/LogEdit.v mirrors remove_absence_time_list / ins
     "correspondence on full dumps (all logs, time, absence list) after every operation of random edit sequences (20 000 sequences in the thorough tier). 'Without error' for the implementation is searched.",
     "note": COMMON_NOTE + " An inserted 'no allocation' entry is None in the code and [] in the model (canonicalised before comparison). Sub-project tasks are covered by the oracle only.",
     "technique": "Coq proof (list-edit algebra: cancellation, length function, record-wise guards) + model/implementation correspondence on edit sequences through the extracted driver"}
+CHECKS["C17"] = {"text": "Model/Backward.v mirrors the structural part of backward_simulate (reverse_dependencies of workflow and organization, helper auto tasks spliced in before tail tasks "
+    "with an earlier due time, the finally-block that removes the helpers and reverses again). Proved for every graph without duplicate list entries, every due-time assignment, both settings of "
+    "considering_due_time_of_tail_tasks and ANY order of removing the helpers (the code iterates over a set): task list, every input list, every output list of a real task and every workplace list are restored "
+    "element for element in the same order, no helper stays listed; the result does not depend on whether the inner run returned or raised (C17_crash_irrelevant). A later forward simulate equals a fresh one "
+    "(from C09's independence of the incoming state). In the logs of any run an FS successor is never logged WORKING at or before a step where its predecessor is logged WORKING (Inv of C01 on the ghost history of C08), "
+    "the reversed configuration has exactly the reversed edges, and reversing equal-length logs swaps the order. The structure model is tied to the code by vm_compute correspondence on the structure recorded before, "
+    "inside (first observer call of the inner run) and after the call; object identity of the list objects, the exception paths and the later forward run are searched by the oracle with an exception injected at (step, phase).",
+    "note": COMMON_NOTE + " PARTIAL: the run-level statement 'logs of a successful backward run keep one entry per step' is C08's theorem for the inner run plus list reversal; reverse_log_information itself "
+    "(rev on every log) is searched, not modelled. Object identity of list objects is outside the model (searched).",
+    "technique": "Coq proof (exact-list invariant for helper insertion/removal in any order, involutive reversal; FS log order by C01 invariant over the C08 ghost history) + vm_compute correspondence of the structure before/inside/after + oracle with injected exceptions"}
 NOT_APPLICABLE = {}
